@@ -610,6 +610,8 @@ def ephem_interleaved_case():
             for w in "ab":
                 for k in range(3):
                     out[f"{w}{k}"] = seq[w][k] if k < len(seq[w]) else -1
+            # the plain iteration protocol (`for p in ephem`): nested loops over the same ephemeris see every pair
+            out["nested_pairs"] = sum(1 for p in e for q in e)
             return out
         finally:
             if not env.symbolic:
@@ -617,14 +619,15 @@ def ephem_interleaved_case():
 
     def ref(env, v, out):
         ts = [0, v["g1"], v["g1"] + v["g2"]]
-        r = {"count_a": 3, "count_b": 3}
+        r = {"count_a": 3, "count_b": 3, "nested_pairs": 9}
         for w in "ab":
             for k in range(3):
                 r[f"{w}{k}"] = ts[k]
         return r
     return Case("ephem/interleaved", ins, run, ref, pre=pre, timeout=60, tol=1e-9, abs_tol=3e-6,
                 signature="Ephem.iter: two live iterations share one cursor",
-                desc="two Ephem.iter() generators on one ephemeris, advanced alternately, each yield the three points in order")
+                desc="two Ephem.iter() generators on one ephemeris, advanced alternately, each yield the three points in order; "
+                     "nested `for` loops over the ephemeris itself see all 9 pairs")
 
 
 def none_case():
